@@ -62,6 +62,9 @@ type c06Env struct {
 	sess  string   // id of the continuous replication, "" if none was created
 	sdir  string   // "both" | "pull"
 	srun  bool
+	src   [2]string  // encoded source id of the active / passive database
+	wcv   db.Version // current version reported by the last successful local write
+	wcvOK bool
 }
 
 func c06NewEnv(t *testing.T, v4 bool, ndocs int, tag string) *c06Env {
@@ -71,6 +74,7 @@ func c06NewEnv(t *testing.T, v4 bool, ndocs int, tag string) *c06Env {
 	}
 	peers := SetupISGRPeersWithOpts(t, TestISGRPeerOpts{ActivePeerSupportedBLIPSubProtocols: []string{proto}})
 	e := &c06Env{t: t, act: peers.ActiveRT, pas: peers.PassiveRT, url: peers.PassiveDBURL, v4: v4}
+	e.src = [2]string{peers.ActiveRT.GetDatabase().EncodedSourceID, peers.PassiveRT.GetDatabase().EncodedSourceID}
 	for i := 0; i < ndocs; i++ {
 		e.docs = append(e.docs, fmt.Sprintf("c06%s_d%d", tag, i))
 	}
@@ -101,6 +105,8 @@ type c06Obs struct {
 	Body    string
 	Seq     uint64
 	Tree    []c06Node
+	Src     string // current version: source
+	Ver     uint64 // current version: value
 }
 
 func (o c06Obs) state() string {
@@ -123,6 +129,7 @@ func (e *c06Env) observe(side int, docID string) c06Obs {
 	o := c06Obs{Exists: true, Rev: doc.GetRevTreeID(), Deleted: doc.IsDeleted(), Seq: doc.Sequence}
 	if doc.HLV != nil {
 		o.CV = doc.HLV.GetCurrentVersionString()
+		o.Src, o.Ver = doc.HLV.GetCurrentVersion()
 	}
 	bb, _ := doc.BodyBytes(ctx)
 	o.Body = string(bb)
@@ -182,6 +189,16 @@ func (e *c06Env) write(side int, docID string, kind int, body string) bool {
 	if resp.Code != 200 && resp.Code != 201 {
 		e.fail("write kind=%d on %s side %d: %d %s", kind, docID, side, resp.Code, resp.BodyString())
 		return false
+	}
+	// the version the write generated (the document may have moved on by the time it is observed)
+	var wr struct {
+		CV string `json:"cv"`
+	}
+	e.wcvOK = false
+	if json.Unmarshal(resp.BodyBytes(), &wr) == nil && wr.CV != "" {
+		if v, err := db.ParseVersion(wr.CV); err == nil {
+			e.wcv, e.wcvOK = v, true
+		}
 	}
 	return e.waitVisible(side)
 }
@@ -449,6 +466,27 @@ func c06PObs(o c06Obs) (string, bool) {
 	k, ok := c06BodyKey(o.Body)
 	return fmt.Sprintf("(PO %s %s (Some %d))", c06OptRev(o.Rev), cqBool(o.Deleted), k), ok
 }
+// version-vector streams: the observation is (current version, tombstone flag, body); sources are interned
+// (1 = the active database, 2 = the passive database, 9 = anything else)
+func (e *c06Env) srcN(src string) int {
+	switch src {
+	case e.src[0]:
+		return 1
+	case e.src[1]:
+		return 2
+	}
+	return 9
+}
+func (e *c06Env) vObs(o c06Obs) (string, bool) {
+	if !o.Exists {
+		return "(VO None false None)", true
+	}
+	k, ok := c06BodyKey(o.Body)
+	if o.Src == "" {
+		return fmt.Sprintf("(VO None %s (Some %d))", cqBool(o.Deleted), k), false
+	}
+	return fmt.Sprintf("(VO (Some (%d, %d)) %s (Some %d))", e.srcN(o.Src), o.Ver, cqBool(o.Deleted), k), ok
+}
 func c06Tree(t []c06Node) string {
 	items := make([]string, len(t))
 	for i, n := range t {
@@ -481,8 +519,16 @@ func (r *c06Runner) snapshot() (string, []map[string]any, bool) {
 		a, b := r.e.observe(0, d), r.e.observe(1, d)
 		sa, oka := c06PObs(a)
 		sb, okb := c06PObs(b)
+		if r.e.v4 {
+			sa, oka = r.e.vObs(a)
+			sb, okb = r.e.vObs(b)
+		}
 		ok = ok && oka && okb
 		items = append(items, fmt.Sprintf("(%d, %s, %s)", i, sa, sb))
+		if r.e.v4 {
+			js = append(js, map[string]any{"doc": i, "A": []any{a.CV, a.Deleted, a.Body}, "B": []any{b.CV, b.Deleted, b.Body}})
+			continue
+		}
 		js = append(js, map[string]any{"doc": i, "A": []any{a.Rev, a.Deleted, a.Body}, "B": []any{b.Rev, b.Deleted, b.Body}})
 	}
 	return cqList(items), js, ok
@@ -506,13 +552,24 @@ func c06Side(s int) string {
 	return "Pas"
 }
 
+func c06VSide(s int) string {
+	if s == 0 {
+		return "VA"
+	}
+	return "VB"
+}
+
 func (r *c06Runner) syncOps() []string {
 	var ops []string
+	pull, push := "Pull", "Push"
+	if r.e.v4 {
+		pull, push = "VPull", "VPush"
+	}
 	for i := range r.e.docs {
 		if r.e.sdir == "pull" {
-			ops = append(ops, fmt.Sprintf("Pull %d", i))
+			ops = append(ops, fmt.Sprintf("%s %d", pull, i))
 		} else {
-			ops = append(ops, fmt.Sprintf("Pull %d", i), fmt.Sprintf("Push %d", i), fmt.Sprintf("Pull %d", i), fmt.Sprintf("Push %d", i))
+			ops = append(ops, fmt.Sprintf("%s %d", pull, i), fmt.Sprintf("%s %d", push, i), fmt.Sprintf("%s %d", pull, i), fmt.Sprintf("%s %d", push, i))
 		}
 	}
 	return ops
@@ -520,6 +577,9 @@ func (r *c06Runner) syncOps() []string {
 
 func (r *c06Runner) allDocs(op string) []string {
 	var ops []string
+	if r.e.v4 {
+		op = "V" + op
+	}
 	for i := range r.e.docs {
 		ops = append(ops, fmt.Sprintf("%s %d", op, i))
 	}
@@ -535,11 +595,23 @@ func (r *c06Runner) do(s c06Step) bool {
 			return false
 		}
 		var op string
-		switch s.W {
-		case c06Edit:
+		switch {
+		case e.v4:
+			// the model's clock reading is the value the implementation generated for this write
+			if !e.wcvOK || e.wcv.SourceID != e.src[s.Side] {
+				e.fail("write on side %d did not report a current version of its own source", s.Side)
+				return false
+			}
+			if s.W == c06Delete {
+				op = fmt.Sprintf("VDelete %s %d %d", c06VSide(s.Side), s.Doc, e.wcv.Value)
+			} else {
+				op = fmt.Sprintf("VEdit %s %d %d %d", c06VSide(s.Side), s.Doc, s.Body, e.wcv.Value)
+				r.bodies[s.Body] = true
+			}
+		case s.W == c06Edit:
 			op = fmt.Sprintf("Edit %s %d %d", c06Side(s.Side), s.Doc, s.Body)
 			r.bodies[s.Body] = true
-		case c06Delete:
+		case s.W == c06Delete:
 			op = fmt.Sprintf("Delete %s %d", c06Side(s.Side), s.Doc)
 		default:
 			op = fmt.Sprintf("Resurrect %s %d %d", c06Side(s.Side), s.Doc, s.Body)
@@ -719,13 +791,29 @@ func c06Corpus() []c06Scenario {
 // model predicts (C06_Refuted.v) -- the structural cause read off the active side's revision tree
 func c06CorpusVV() []c06Scenario {
 	A, B := 0, 1
-	pull := c06Step{Kind: "pull"}
-	return []c06Scenario{
+	pull, push := c06Step{Kind: "pull"}, c06Step{Kind: "push"}
+	var out []c06Scenario
+	// every revision-tree corpus scenario is also run under the version-vector protocol
+	for _, sc := range c06Corpus() {
+		out = append(out, c06Scenario{name: "v3corpus-" + sc.name, plan: sc.plan})
+	}
+	return append(out, []c06Scenario{
+		// LWW decided for the active side (its write is the later one), for the passive side, and a push before the pull
+		// (refused with 409 by the passive side, which has no resolver)
+		{"lww-local-remote-push-first", []c06Step{c06W(B, 0, c06Edit, 2), c06W(A, 0, c06Edit, 3), c06W(A, 1, c06Edit, 2), c06W(B, 1, c06Edit, 3),
+			c06W(B, 2, c06Edit, 4), c06W(A, 2, c06Edit, 5), push, pull, push}},
+		// an older tombstone beats a newer edit, whichever side holds it; resurrection after the resolution
+		{"lww-tombstone-beats-newer-edit", []c06Step{c06W(A, 0, c06Edit, 2), c06W(B, 1, c06Edit, 2), push, pull,
+			c06W(A, 0, c06Delete, 0), c06W(B, 0, c06Edit, 3), c06W(B, 1, c06Delete, 0), c06W(A, 1, c06Edit, 4), pull,
+			c06W(A, 0, c06Resurrect, 5), c06W(A, 1, c06Resurrect, 5), push}},
+		// a conflict resolved on the active side and edited again on the passive side before the resolution is pushed
+		{"lww-second-conflict-before-push", []c06Step{c06W(B, 0, c06Edit, 2), c06W(A, 0, c06Edit, 3), pull, c06W(B, 0, c06Edit, 4), pull, push,
+			c06W(A, 0, c06Edit, 5), c06W(B, 0, c06Delete, 0), pull, push}},
 		// the same document created independently on both sides (same revision-tree id, different versions);
 		// doc 1: created on both sides with different bodies
 		{"same-body-both-sides", []c06Step{c06W(A, 0, c06Edit, 3), c06W(B, 0, c06Edit, 3), c06W(A, 1, c06Edit, 2), c06W(B, 1, c06Edit, 3), pull}},
 		{"same-body-both-sides-reversed", []c06Step{c06W(B, 0, c06Edit, 3), c06W(A, 0, c06Edit, 3), pull}},
-	}
+	}...)
 }
 
 func c06StateSig(v4 bool, a, b c06Obs) string {
@@ -861,7 +949,17 @@ func c06RunScenario(t *testing.T, rec *vRecorder, stream string, sc c06Scenario,
 					fmt.Sprintf("re-running the caught-up replication read %d and wrote %d documents (checked %d/%d)", again[0].DocsRead, again[1].DocsWritten, again[0].DocsCheckedPull, again[1].DocsCheckedPush))
 			}
 			nontrivial := hasConflictShape || hasDelete
-			if coq {
+			if coq && v4 {
+				// the version-vector model is re-run in Coq on the same steps (C06/VV.v)
+				var steps []string
+				var descSteps []any
+				for _, s := range r.steps {
+					steps = append(steps, fmt.Sprintf("VSt %s %s %s", cqList(s.ops), s.counts, s.after))
+					descSteps = append(descSteps, s.desc)
+				}
+				rec.Case(stream, "vv-scenario", "CVV\n    "+cqList(steps), map[string]any{"scenario": sc.name, "protocol": c06Proto(true), "steps": descSteps}, nontrivial)
+			}
+			if coq && !v4 {
 				// db.RevDiff on both stored trees: every revision id of either side plus one nobody has
 				for i, f := range finals {
 					var ids []string
@@ -894,7 +992,7 @@ func c06RunScenario(t *testing.T, rec *vRecorder, stream string, sc c06Scenario,
 					}
 				}
 			}
-			if coq {
+			if coq && !v4 {
 				tbl, okT := r.digestTable(finals)
 				if okT {
 					var steps, fin []string
@@ -909,7 +1007,7 @@ func c06RunScenario(t *testing.T, rec *vRecorder, stream string, sc c06Scenario,
 					term := fmt.Sprintf("CScen %s\n    %s\n    %s", tbl, cqList(steps), cqList(fin))
 					rec.Case(stream, "scenario", term, map[string]any{"scenario": sc.name, "steps": descSteps}, nontrivial)
 				}
-			} else {
+			} else if !coq {
 				rec.Count(stream, "scenario", sc.name+strings.Join(r.descs, ";"), nontrivial)
 			}
 			for _, d := range r.descs {
@@ -1115,6 +1213,185 @@ func c06RunLocalWinsRead(t *testing.T, rec *vRecorder, rng *vRand, idx int) {
 	}
 }
 
+// ---------------------------------------------------------------- local-wins resolution losing its CAS (version-vector)
+
+// lwretry: version-vector one-shot pull; every pulled document is in a conflict the LWW resolver decides for the
+// ACTIVE side (its write is the later one) or becomes so; between the update callback of the pull's write and its
+// CAS write a LOCAL PUT of the same document lands on the active side (update callback of the active side's data
+// store, re-entrancy guarded), so the write loses its CAS and the callback is re-run on the updated document against
+// the SAME incoming revision and vector.  The model step is [VEdit VA d body v; VPull d]: re-running the callback must
+// be indistinguishable from pulling after the local edit.  Then pull; push; pull; push, peers_converged, re-run
+// transfers nothing; the whole scenario is also a Coq case of the version-vector model.
+func c06RunLocalWinsRetry(t *testing.T, rec *vRecorder, rng *vRand, idx int) {
+	e := c06NewEnv(t, true, 2, "")
+	coll, _ := e.act.GetSingleTestDatabaseCollectionWithUser()
+	lds, ok := base.AsLeakyDataStore(coll.GetCollectionDatastore())
+	if !ok {
+		rec.Err("infrastructure: active data store is not leaky")
+		return
+	}
+	r := &c06Runner{e: e, bodies: map[int]bool{}}
+	do := func(s c06Step) bool { return r.do(r.concretise(s)) }
+	ok = true
+	// shape 0: both sides create the document; shape 1: created on one side and synced, then both edit; shape 2: the
+	// passive side's write is the LATER one (remote wins without the interposed edit).  Passive first, active last.
+	for d := range e.docs {
+		shape := (idx + d) % 3
+		if shape == 1 {
+			ok = ok && do(c06W(d%2, d, c06Edit, 2)) && do(c06Step{Kind: "push"}) && do(c06Step{Kind: "pull"})
+		}
+		if shape == 2 {
+			ok = ok && do(c06W(0, d, c06Edit, 2+rng.Intn(2)))
+			time.Sleep(2 * time.Millisecond)
+		}
+		for k := 0; k < 1+rng.Intn(2) && ok; k++ {
+			ok = do(c06W(1, d, c06Edit, 3+rng.Intn(2)))
+		}
+		time.Sleep(2 * time.Millisecond)
+		if shape != 2 {
+			for k := 0; k < 1+rng.Intn(2) && ok; k++ {
+				ok = do(c06W(0, d, c06Edit, 5+k))
+			}
+		}
+	}
+	if !ok || len(e.infra) > 0 {
+		rec.Err("infrastructure: lwretry setup")
+		return
+	}
+	// the interposed local PUT: once per document, from inside the first write of the document made by the pull
+	type injected struct {
+		doc, body int
+		ver       uint64
+		ok        bool
+	}
+	var mu sync.Mutex
+	fired := map[string]bool{}
+	var inj []injected
+	docIdx := map[string]int{}
+	for i, d := range e.docs {
+		docIdx[d] = i
+	}
+	lds.SetUpdateCallback(func(key string) {
+		i, mine := docIdx[key]
+		if !mine {
+			return
+		}
+		mu.Lock()
+		if fired[key] {
+			mu.Unlock()
+			return
+		}
+		fired[key] = true
+		mu.Unlock()
+		body := 6 + i
+		// a plain PUT on the current revision through the admin API; the nested write re-enters this callback (guarded)
+		rt := e.act
+		cur := e.observe(0, key)
+		path := "/" + rt.GetSingleKeyspace() + "/" + key
+		var resp *TestResponse
+		if cur.Exists && !cur.Deleted {
+			resp = rt.SendAdminRequest(http.MethodPut, path+"?rev="+cur.Rev, c06BodyText(body))
+		} else {
+			resp = rt.SendAdminRequest(http.MethodPut, path, c06BodyText(body))
+		}
+		in := injected{doc: i, body: body}
+		var wr struct {
+			CV string `json:"cv"`
+		}
+		if (resp.Code == 200 || resp.Code == 201) && json.Unmarshal(resp.BodyBytes(), &wr) == nil {
+			if v, err := db.ParseVersion(wr.CV); err == nil && v.SourceID == e.src[0] {
+				in.ver, in.ok = v.Value, true
+			}
+		}
+		mu.Lock()
+		inj = append(inj, in)
+		mu.Unlock()
+	})
+	st, okPull := e.oneShot(db.ActiveReplicatorTypePull)
+	lds.SetUpdateCallback(nil)
+	if !okPull {
+		rec.Err("infrastructure: lwretry pull")
+		return
+	}
+	sort.Slice(inj, func(a, b int) bool { return inj[a].ver < inj[b].ver })
+	var ops []string
+	desc := "pull with a local PUT of"
+	for _, in := range inj {
+		if !in.ok {
+			rec.Err("infrastructure: lwretry interposed write failed")
+			return
+		}
+		ops = append(ops, fmt.Sprintf("VEdit VA %d %d %d", in.doc, in.body, in.ver))
+		r.bodies[in.body] = true
+		desc += fmt.Sprintf(" d%d(b%d)", in.doc, in.body)
+	}
+	desc += " between the update callback and the CAS write of the pull's write"
+	ops = append(ops, r.allDocs("Pull")...)
+	if !e.waitVisible(0) {
+		rec.Err("infrastructure: lwretry visibility")
+		return
+	}
+	after, js, okS := r.snapshot()
+	if !okS {
+		rec.Err("infrastructure: lwretry unexpected body")
+		return
+	}
+	r.steps = append(r.steps, c06Recorded{ops: ops, counts: fmt.Sprintf("(Some (%d, %d))", st.DocsRead, st.RejectedLocal), after: after,
+		desc: map[string]any{"step": desc, "after": js}})
+	r.descs = append(r.descs, desc)
+	injectedCV := map[int]uint64{}
+	for _, in := range inj {
+		injectedCV[in.doc] = in.ver
+	}
+	// catch up, then re-run
+	if !(r.do(c06Step{Kind: "pull"}) && r.do(c06Step{Kind: "push"})) {
+		rec.Err("infrastructure: lwretry catch-up")
+		return
+	}
+	pushConflicts := r.nConf
+	p2, ok3 := e.oneShot(db.ActiveReplicatorTypePull)
+	if ok3 {
+		r.record(c06Step{Kind: "pull"}, r.allDocs("Pull"), fmt.Sprintf("(Some (%d, %d))", p2.DocsRead, p2.RejectedLocal))
+	}
+	q2, ok4 := e.oneShot(db.ActiveReplicatorTypePush)
+	if ok4 {
+		r.record(c06Step{Kind: "push"}, r.allDocs("Push"), fmt.Sprintf("(Some (%d, %d))", q2.DocsWritten, q2.DocWriteConflict))
+	}
+	if !(ok3 && ok4) || len(e.infra) > 0 || r.abort {
+		rec.Err("infrastructure: lwretry re-run")
+		for _, m := range e.infra {
+			t.Logf("C06 lwretry-%d abandoned: %s", idx, m)
+		}
+		return
+	}
+	input := map[string]any{"protocol": c06Proto(true), "scenario": fmt.Sprintf("lwretry-%d", idx), "steps": r.descs, "interposed_writes": len(inj)}
+	for i, d := range e.docs {
+		a, b := e.observe(0, d), e.observe(1, d)
+		if a.Exists == b.Exists && a.Deleted == b.Deleted && a.Body == b.Body && a.CV == b.CV {
+			continue
+		}
+		sig := c06StateSig(true, a, b)
+		if v, was := injectedCV[i]; was && a.state() == "live" && b.state() == "live" && a.Src == e.src[0] && a.Ver >= v && b.CV != a.CV {
+			// the active side shows its own (interposed or later) write, the passive side never received it
+			sig = "vv:diverged:local-wins-cas-retry-drops-remote-version"
+		}
+		rec.Fail("peers_converged", sig, input,
+			fmt.Sprintf("doc %d after the final pull;push: active {rev %s cv %s deleted %v body %s} passive {rev %s cv %s deleted %v body %s}; the catch-up push reported %d conflict(s); %d local PUT(s) were interposed",
+				i, a.Rev, a.CV, a.Deleted, a.Body, b.Rev, b.CV, b.Deleted, b.Body, pushConflicts, len(inj)))
+	}
+	if p2.DocsRead != 0 || q2.DocsWritten != 0 {
+		rec.Fail("caught_up_no_transfer", "rerun-transfers-documents", input, fmt.Sprintf("re-running the caught-up replication read %d and wrote %d documents", p2.DocsRead, q2.DocsWritten))
+	}
+	var steps []string
+	var descSteps []any
+	for _, s := range r.steps {
+		steps = append(steps, fmt.Sprintf("VSt %s %s %s", cqList(s.ops), s.counts, s.after))
+		descSteps = append(descSteps, s.desc)
+	}
+	rec.Case("lwretry-vv", "vv-scenario", "CVV\n    "+cqList(steps), map[string]any{"scenario": fmt.Sprintf("lwretry-%d", idx), "protocol": c06Proto(true), "steps": descSteps}, len(inj) > 0)
+	rec.Extra(fmt.Sprintf("lwretry_%d_interposed_writes", idx), len(inj))
+}
+
 // ---------------------------------------------------------------- resolver stream
 
 func c06ResolverStream(t *testing.T, rec *vRecorder, rng *vRand) {
@@ -1167,6 +1444,60 @@ func c06ResolverStream(t *testing.T, rec *vRecorder, rng *vRand) {
 	}
 }
 
+// ---------------------------------------------------------------- LWW resolver stream (version-vector protocol)
+
+// db.DefaultLWWConflictResolutionType on (tombstone flag, current version value) pairs, both orientations:
+// one Coq case per pair (C06/VV.v lww_remote_wins) and two monitors
+//
+//	lww_policy     a tombstone beats a live document; otherwise the remote wins iff its value is strictly greater
+//	lww_symmetric  unless both the flags and the values are equal, the same document wins whichever side is local
+func c06LWWStream(t *testing.T, rec *vRecorder, rng *vRand) {
+	ctx := base.TestCtx(t)
+	vals := []uint64{1, 2, 3, 1790000000000000000, 1790000000000000001, 1790000000000065536, 1 << 62, 1<<63 - 1}
+	n := vBudget(200, 2000)
+	for i := 0; i < n; i++ {
+		ld, lv := rng.Chance(35), vals[rng.Intn(len(vals))]
+		rd, rv := rng.Chance(35), vals[rng.Intn(len(vals))]
+		run := func(ld bool, lv uint64, rd bool, rv uint64) (string, bool) {
+			c := db.Conflict{LocalDocument: db.Body{db.BodyDeleted: ld, "side": "local"},
+				RemoteDocument: db.Body{db.BodyDeleted: rd, "side": "remote"},
+				LocalHLV:       &db.HybridLogicalVector{SourceID: "s1", Version: lv},
+				RemoteHLV:      &db.HybridLogicalVector{SourceID: "s2", Version: rv}}
+			w, err := db.DefaultLWWConflictResolutionType(ctx, c)
+			if err != nil || w == nil {
+				return "error", false
+			}
+			side, _ := w["side"].(string)
+			return side, side == "local"
+		}
+		w1, localWon := run(ld, lv, rd, rv)
+		w2, localWon2 := run(rd, rv, ld, lv)
+		input := map[string]any{"local": []any{ld, lv}, "remote": []any{rd, rv}}
+		if w1 == "error" || w2 == "error" {
+			rec.Fail("lww_policy", "lww-resolver-error", input, "DefaultLWWConflictResolutionType returned an error")
+			continue
+		}
+		rec.Case("lww", "lww", fmt.Sprintf("CLww %s %d %s %d %s", cqBool(ld), lv, cqBool(rd), rv, cqBool(localWon)),
+			map[string]any{"local": []any{ld, lv}, "remote": []any{rd, rv}, "local_won": localWon}, ld != rd || lv == rv)
+		wantLocal := true
+		switch {
+		case ld != rd:
+			wantLocal = ld
+		default:
+			wantLocal = !(rv > lv)
+		}
+		if localWon != wantLocal {
+			rec.Fail("lww_policy", "lww-not-tombstone-then-greater-value", input,
+				fmt.Sprintf("DefaultLWWConflictResolutionType kept the %s document; tombstone-first, then strictly greater value keeps the %s one", w1, map[bool]string{true: "local", false: "remote"}[wantLocal]))
+		}
+		if (ld != rd || lv != rv) && localWon == localWon2 {
+			// x local / y remote keeps x  <->  y local / x remote must keep x too, i.e. the remote one
+			rec.Fail("lww_symmetric", "lww-choice-depends-on-side", map[string]any{"x": []any{ld, lv}, "y": []any{rd, rv}},
+				fmt.Sprintf("local=x remote=y keeps the %s document, local=y remote=x keeps the %s document", w1, w2))
+		}
+	}
+}
+
 // ---------------------------------------------------------------- entry point
 
 func TestVerifC06(t *testing.T) {
@@ -1177,6 +1508,7 @@ func TestVerifC06(t *testing.T) {
 	start := time.Now()
 
 	c06ResolverStream(t, rec, rng)
+	c06LWWStream(t, rec, vNewRand(vSeed()*104729+606))
 
 	for _, sc := range c06Corpus() {
 		sc := sc
@@ -1195,12 +1527,12 @@ func TestVerifC06(t *testing.T) {
 	// version-vector protocol: same shapes, monitors only
 	for _, sc := range c06CorpusVV() {
 		sc := sc
-		t.Run("vv-corpus-"+sc.name, func(t *testing.T) { c06RunScenario(t, rec, "vv", sc, true, false) })
+		t.Run("vv-corpus-"+sc.name, func(t *testing.T) { c06RunScenario(t, rec, "vv", sc, true, true) })
 	}
 	nVV := vBudget(3, 24)
 	for i := 0; i < nVV; i++ {
 		sc := c06Scenario{name: fmt.Sprintf("vv-%d-%d", vSeed(), i), plan: c06Plan(rng, 5+rng.Intn(6), 3)}
-		t.Run(sc.name, func(t *testing.T) { c06RunScenario(t, rec, "vv", sc, true, false) })
+		t.Run(sc.name, func(t *testing.T) { c06RunScenario(t, rec, "vv", sc, true, true) })
 	}
 	for i := 0; i < vBudget(1, 8); i++ {
 		i := i
@@ -1209,6 +1541,10 @@ func TestVerifC06(t *testing.T) {
 	for i := 0; i < vBudget(3, 12); i++ {
 		i := i
 		t.Run(fmt.Sprintf("lwread-vv-%d", i), func(t *testing.T) { c06RunLocalWinsRead(t, rec, rng, i) })
+	}
+	for i := 0; i < vBudget(3, 12); i++ {
+		i := i
+		t.Run(fmt.Sprintf("lwretry-vv-%d", i), func(t *testing.T) { c06RunLocalWinsRetry(t, rec, rng, i) })
 	}
 	rec.Extra("wall_s", time.Since(start).Seconds())
 	rec.Extra("exhaustive", false)
